@@ -38,6 +38,23 @@ fn clock() -> &'static Clock {
 /// only for measuring elapsed time between two reads, never as a timestamp to
 /// compare against another machine's clock.
 pub fn now_ms() -> u64 {
+    #[cfg(feature = "verif-hooks")]
+    if let Some(v) = VERIF_NOW_MS.with(|c| c.get()) {
+        return v;
+    }
     let c = clock();
     c.base_ms + c.anchor.elapsed().as_millis() as u64
+}
+
+#[cfg(feature = "verif-hooks")]
+thread_local! {
+    /// Verification hook: per-thread override of the ambient clock.
+    static VERIF_NOW_MS: std::cell::Cell<Option<u64>> = const { std::cell::Cell::new(None) };
+}
+
+/// Verification hook: pin `now_ms()` on the calling thread to `v`
+/// (`None` restores the real monotonic clock).
+#[cfg(feature = "verif-hooks")]
+pub fn verif_set_now_ms(v: Option<u64>) {
+    VERIF_NOW_MS.with(|c| c.set(v));
 }
